@@ -79,7 +79,9 @@ CLAIMED = {
              "currency, money/money is a plain ratio; for ALL operation histories the rate table is the fold of the accepted "
              "updates (last write wins, other currencies untouched, evaluation never changes it, false exactly for unknown names); "
              "finite-table theorems over the 161 regenerated currencies, aliases and 32x32 rated pairs, every literal spelling end to "
-             "end. Four literal-clause defects are refuted-witness theorems and listed known findings. Tie: per-run differential "
+             "end; the money parser on `digits blanks word` and `symbol digits` yields exactly one money token for ALL digit "
+             "strings and all 161 codes in any letter case. Four literal-clause defects are refuted-witness theorems and listed "
+             "known findings. Tie: per-run differential "
              "check on evaluations and update histories with an exact-rational oracle over config.json.",
         design="DESIGN.md section 7 C06", technique="Coq proof (field over Qc, induction over update histories, finite tables by vm_compute) + model/implementation correspondence"),
     "C08": dict(
@@ -112,7 +114,9 @@ CLAIMED = {
         text="Theorems: reading the printed digits of n gives n back for every base 2..36, both cases, every 0 <= n < 2^64 (fuel "
              "proved sufficient), no leading zeros; the literal reader accepts exactly n < 2^63; printing a based number is prefix + "
              "digits of the 64-bit value; `to hex|octal|binary|decimal` rounds half away from zero and sets the base; arithmetic "
-             "keeps the left operand's base; at binary64 every n < 2^53 round-trips (uses two stdlib float axioms, listed). The "
+             "keeps the left operand's base; at binary64 every n < 2^53 round-trips (uses two stdlib float axioms, listed); END "
+             "TO END the TEXT `0b`ds / `0o`ds / `0x`ds (ds any digit string of the base made of decimal digits, below 2^63) "
+             "evaluates through the public entry point to that number of the based type and prints as the based text. The "
              "hex-literal/currency-code collision is a refuted witness and a listed known finding. Tie: per-run differential check "
              "incl. read-back of every printed literal.",
         design="DESIGN.md section 7 C13", technique="Coq proof (strong induction on n by division, lia) + model/implementation correspondence"),
